@@ -163,7 +163,7 @@ def run(ctx):
                 scen.append((ka, kb, m))
     for ka, kb in (("opt", "opt"), ("optdirect", "opt"), ("opt", "optdirect"), ("optattr", "opt"), ("optdirect", "optattr"), ("opt", "optattr")):
         scen.append((ka, kb, ""))
-    frac = 3 if ctx.thorough else 12
+    frac = 6 if ctx.thorough else 12
     probe_keys = sorted({(ka, m) for ka, _, m in scen})
     probe = dict(zip(probe_keys, pmap(lambda k: child({"mode": "probe", "trace": True, "ops": {"A": base_jobs[k]}}), probe_keys)))
     jobs = []
